@@ -27,6 +27,9 @@ def closure_tree(prog, root_path, deep=True):
         for _, t in b.calls():
             for tgt in (t.get("resolved"), t.get("callee")):
                 f = prog.fns.get(tgt)
+                if f is not None and tgt in prog._bodies_raw and f.get("kind") == "Closure":
+                    work.append(tgt)      # a named local closure (`let is_relaxed = |b| ..;`) called from here is part of what this code does
+                    continue
                 if f is not None and tgt in prog._bodies_raw and f.get("vis") != "pub" and f.get("kind") in ("Fn", "AssocFn") \
                         and "impl_trait" not in f and not any(mir.strip_generics(tgt).startswith(D + m) and not mir.strip_generics(root_path).startswith(D + m)
                                                               for m in ("utils::", "attr::")):
